@@ -4,7 +4,8 @@
               nick; ident; name  (arguments of NewConfig);
               dec #others; nicks of users already on the server...;
               dec #events; then 3 fields per event: tag; p1; p2 ]
-       tags: coll | welsame | weldiff n | req y | confirm | ignore | force y | other a b | new a |
+       tags: coll | welsame tail | weldiff n tail | req y | confirm user@host | ignore | force y user@host |
+             other a b | new a |   (tail = "" or user@host: how the welcome text ends)
              track a | forget a | me | raw line
      obs   = per event, taken at the sync marker that follows it:
              "ok"/"nil"; Config().Me.Nick (read BEFORE Me() is called);
@@ -38,14 +39,23 @@ Definition t_raw : bytes := [114;97;119]%N.
 Definition gen_of (g : bytes) : bytes -> bytes :=
   if beq g g_append then gen_append else if beq g g_rotate then gen_rotate else default_new_nick.
 
+(* "user@host" -> (user, host); without '@' the host is empty (such an event is not enabled) *)
+Definition dec_uh (p : bytes) : uhost :=
+  match split2 p [64%N] with
+  | [u; h] => (u, h)
+  | _ => (p, [])
+  end.
+(* the welcome text's tail: "" = bare nick, otherwise nick!user@host *)
+Definition dec_tail (p : bytes) : option uhost := if beq p [] then None else Some (dec_uh p).
+
 Definition decode_event (tag p1 p2 : bytes) : event :=
   if beq tag t_coll then EColl
-  else if beq tag t_welsame then EWelcome None
-  else if beq tag t_weldiff then EWelcome (Some p1)
+  else if beq tag t_welsame then EWelcome None (dec_tail p1)
+  else if beq tag t_weldiff then EWelcome (Some p1) (dec_tail p2)
   else if beq tag t_req then EReq p1
-  else if beq tag t_confirm then EConfirm
+  else if beq tag t_confirm then EConfirm (dec_uh p1)
   else if beq tag t_ignore then EIgnore
-  else if beq tag t_force then EForce p1
+  else if beq tag t_force then EForce p1 (dec_uh p2)
   else if beq tag t_other then EOther p1 p2
   else if beq tag t_new then ENew p1
   else if beq tag t_track then ETrack p1
